@@ -70,6 +70,11 @@ def build(verbose=False):
         drv_ok = False
         ml = os.path.join(COQ, "extracted", "model.ml")
         drv = os.path.join(OCAML, "driver")
+        # the driver is only valid if the extraction target itself is up to date w.r.t. everything it depends on
+        rc_x, log_x = sh("timeout 600 make Extract.vo 2>&1", cwd=COQ, timeout=700)
+        if rc_x != 0:
+            log += log_x
+            if "Extract.v" not in failed: failed.append("Extract.v")
         if os.path.exists(ml) and "Extract.v" not in failed:
             srcs = [ml, os.path.join(COQ, "extracted", "model.mli"), os.path.join(OCAML, "driver.ml")]
             if (not os.path.exists(drv)) or any(os.path.getmtime(s) > os.path.getmtime(drv) for s in srcs):
